@@ -121,10 +121,10 @@ def mk_x(shape, dtype):
 # stream: convert (to_funsor / to_data round trip)
 # ------------------------------------------------------------------------------------------
 
-def convert_cases(rng, max_rank, sizes=(1, 2, 3), sample=None):
+def convert_cases(rng, max_rank, sizes=(1, 2, 3), sample=None, min_rank=0):
     """Every (shape, event rank, named subset).  Names are drawn per case in a random (non
     alphabetical) order and dim_to_name is inserted in random order."""
-    for r in range(max_rank + 1):
+    for r in range(min_rank, max_rank + 1):
         for shape in itertools.product(sizes, repeat=r):
             for e in range(min(2, r) + 1):
                 nb = r - e
@@ -323,15 +323,31 @@ def malformed_stream(ctx, n):
         elif kind == "out-longer":
             out = [1] * (r - len(es) + 1) + list(shape)
         x = mk_x(tuple(shape), "real")
+        if kind in ("n2d-missing", "n2d-dup-dim"):
+            # to_data on a hand-built tensor (size-1 inputs allowed) with a defective name_to_dim
+            keys = NAMES[:nb]
+            t = Tensor(x, OrderedDict((k, Bint[s]) for k, s in zip(keys, shape)))
+            n2d = [(k, -(i + 1)) for i, k in enumerate(keys)]
+            rng.shuffle(n2d)
+            if kind == "n2d-missing" and n2d:
+                n2d = n2d[1:]
+            elif kind == "n2d-dup-dim" and len(n2d) >= 2:
+                n2d[0] = (n2d[0][0], n2d[1][1])
+            r1 = run(lambda: to_data(t, OrderedDict(n2d)))
+            todo.append((kind, shape, out, n2d, x, r1, obs_tensor(t)[1]))
+            continue
         r1 = run(lambda: to_funsor(x, Reals[tuple(out)], OrderedDict(d2n)))
-        todo.append((kind, shape, out, d2n, x, r1))
-    reqs = [f"C19 tofunsor {sx(s)} {sx(ints(x))} {sx(out)} real {sx([[k, Q(v)] for k, v in d2n])}"
-            for kind, s, out, d2n, x, r1 in todo]
+        todo.append((kind, shape, out, d2n, x, r1, None))
+    reqs = [f"C19 tofunsor {sx(s)} {sx(ints(x))} {sx(out)} real {sx([[k, Q(v)] for k, v in d2n])}" if t is None
+            else f"C19 todata {sx(enc_tensor(t))} {sx([[Q(k), d] for k, d in d2n])}"
+            for kind, s, out, d2n, x, r1, t in todo]
     answers = ctx.driver.ask(reqs)
-    for (kind, s, out, d2n, x, r1), a in zip(todo, answers):
+    for (kind, s, out, d2n, x, r1, t), a in zip(todo, answers):
         m = dec(a)
         if r1[0] == "raise":
             agree = m[0] == "raise"
+        elif t is not None:
+            agree = m[0] == "arr" and obs_arr(r1[1])[1] == m[1]
         else:
             agree = m[0] == "tensor" and obs_tensor(r1[1])[1] == m[1]
         ctx.count(f"malformed:{kind}:{'agree' if agree else 'DISAGREE'}")
@@ -500,15 +516,15 @@ def align_stream(ctx, tensors, use_driver=True):
 # stream: align_tensor / align_tensors
 # ------------------------------------------------------------------------------------------
 
-def py_aligntensors_snippet(sizes, specs, expand):
+def py_aligntensors_snippet(sizes, specs, expand, tgt):
     return f"""
-# C19 replay: align_tensors
+# C19 replay: align_tensors / align_tensor
 import numpy as np, itertools, funsor
 from collections import OrderedDict
 from funsor.domains import Bint
-from funsor.tensor import Tensor, align_tensors
+from funsor.tensor import Tensor, align_tensors, align_tensor
 funsor.set_backend("numpy")
-sizes = {sizes!r}; specs = {specs!r}; expand = {expand!r}
+sizes = {sizes!r}; specs = {specs!r}; expand = {expand!r}; tgt = {tgt!r}
 ts = []
 for k, (keys, es) in enumerate(specs):
     shape = [sizes[n] for n in keys] + es
@@ -527,6 +543,15 @@ for t, a, (keys, es) in zip(ts, arrs, specs):
     for pt in itertools.product(*[range(s) for s in full]):
         env = dict(zip(inputs, pt))
         FAILS = FAILS or not np.array_equal(b[pt], t.data[tuple(env[n] for n in keys)])
+a = align_tensor(OrderedDict((n, Bint[sizes[n]]) for n in tgt), ts[0], expand=expand)
+full = [sizes[n] for n in tgt]
+try:
+    b = np.broadcast_to(a, full + specs[0][1])
+    for pt in itertools.product(*[range(s) for s in full]):
+        env = dict(zip(tgt, pt))
+        FAILS = FAILS or not np.array_equal(b[pt], ts[0].data[tuple(env[n] for n in specs[0][0])])
+except ValueError:
+    FAILS = True
 print("inputs", list(inputs), "FAILS", FAILS)
 """
 
@@ -567,7 +592,7 @@ def aligntensors_stream(ctx, n, use_driver=True):
     answers = ctx.driver.ask(reqs) if use_driver else [None] * len(reqs)
     for i, (sizes, specs, expand, ts, r, tgt, r1) in enumerate(todo):
         wit = {"stream": "aligntensors", "sizes": sizes, "tensors": specs, "expand": expand, "target": tgt}
-        py = py_aligntensors_snippet(sizes, specs, expand)
+        py = py_aligntensors_snippet(sizes, specs, expand, tgt)
         ctx.count(f"aligntensors:n={len(specs)}")
         ctx.count(f"aligntensors:expand={expand}")
         if r[0] == "raise" or r1[0] == "raise":
@@ -761,6 +786,40 @@ def term_vars(t):
     return term_vars(t[2]) | term_vars(t[3])
 
 
+def py_materialize_snippet(t, sizes):
+    return f"""
+# C19 replay: Tensor.materialize must not change the value of the term at any named point
+import numpy as np, itertools, funsor
+from collections import OrderedDict
+from funsor.domains import Bint
+from funsor.tensor import Tensor
+from funsor.terms import Variable, Number
+import funsor.ops as ops
+funsor.set_backend("numpy")
+term = {t!r}; sizes = {sizes!r}
+OPS = dict(add=ops.add, mul=ops.mul, sub=ops.sub)
+def build(t):
+    if t[0] == "var": return Variable(t[1], Bint[t[2]])
+    if t[0] == "tensor":
+        return Tensor(np.array(t[3], dtype=np.float64).reshape(t[2]), OrderedDict((k, Bint[s]) for k, s in t[1]))
+    return OPS[t[1]](build(t[2]), build(t[3]))
+def value(t, env):
+    if t[0] == "var": return env[t[1]]
+    if t[0] == "tensor": return int(np.array(t[3]).reshape(t[2])[tuple(env[k] for k, _ in t[1])])
+    l, r = value(t[2], env), value(t[3], env)
+    return dict(add=l + r, mul=l * r, sub=l - r)[t[1]]
+g = Tensor(np.zeros(())).materialize(build(term))
+FAILS = False
+if isinstance(g, (Tensor, Number)):
+    names = sorted(sizes)
+    for pt in itertools.product(*[range(sizes[k]) for k in names]):
+        env = dict(zip(names, pt))
+        got = float(np.asarray(g.data)[tuple(env[k] for k in g.inputs)])
+        FAILS = FAILS or got != float(value(term, env))
+print("FAILS", FAILS)
+"""
+
+
 def materialize_stream(ctx, n, use_driver=True):
     rng = ctx.rng
     proto = Tensor(np.zeros(()))
@@ -804,7 +863,7 @@ def materialize_stream(ctx, n, use_driver=True):
             got.append(float(gd[tuple(env[k] for k in gkeys)]))
         if [float(v) for v in spec] != got:
             ctx.fail("input", "C19.materialize-changes-value", witness=wit, expected=str(spec), got=str(got),
-                     python=f"# term {t!r}: materialize() must equal the term's value at every point\nFAILS = True\n")
+                     python=py_materialize_snippet(t, sizes))
             continue
         if use_driver:
             m, d = dec(answers[2 * i]), answers[2 * i + 1]
@@ -872,6 +931,8 @@ def correspond(ctx):
         # sizes up to 4 (the property's stated range) for rank <= 4
         convert_stream(ctx, (c for c in convert_cases(ctx.rng, 4, sizes=(1, 2, 3, 4)) if 4 in c["shape"]),
                        tag="convert4")
+        convert_stream(ctx, (c for c in convert_cases(ctx.rng, 5, sizes=(1, 2, 3, 4), sample=0.25, min_rank=5)
+                             if 4 in c["shape"]), tag="convert4r5")
     malformed_stream(ctx, 300 if quick else 3000)
     align_stream(ctx, align_tensors_cases(ctx.rng, ctx.tier))
     aligntensors_stream(ctx, 300 if quick else 4000)
